@@ -40,10 +40,11 @@ CHECKS = {
              "dominating length guard, a callee Ok-postcondition or the documented buffer contract.",
         note="assumed: totality of the primitives below the boundary (Poly1305, BLAKE2b, SHA-512, Argon2 with bounded cost, dalek, ciphers); output buffers obey the documented size contract."),
     "C05": dict(
-        technique="FORBID flow (reduced scalar -> variable-base multiplication) + AUTH on the shared-secret check + sibling mirror/provenance on MIR",
+        technique="FORBID flow (reduced scalar -> variable-base multiplication) + AUTH on the shared-secret check + sibling mirror/provenance on MIR + call-graph reachability of the object-API client/server wrappers",
         category="other", design="§3 C05",
         text="Variable-base X25519 never multiplies by a mod-L-reduced scalar; key exchange returns Ok only behind a branch on "
-             "the shared secret whose other edge is Err; client and server pass rx/tx mirrored; the kx hash absorbs shared||client_pk||server_pk.",
+             "the shared secret whose other edge is Err; client and server pass rx/tx mirrored; the kx hash absorbs shared||client_pk||server_pk; "
+             "every public client/server wrapper of the object API reaches the classic session-key function of its own side.",
         note="not decided: numerical X25519 output, commutativity."),
     "C06": dict(
         technique="FORBID flow (signature bytes -> mod-order decoder) + multi-obligation AUTH on verify + provenance of the hash inputs on MIR",
@@ -104,10 +105,11 @@ CHECKS = {
              "store bytes in Vec<u8, PageAlignedAllocator>. Holds for every operation history.",
         note="trusted: zeroize's volatile wipe is not elided; std's default Allocator::grow/shrink; Windows branch not compiled."),
     "C16": dict(
-        technique="AUTH(len) on fixed-length decoders (Ok only behind count==LENGTH edges; size_hint forbidden as decision input) + framing offsets sibling check + LEN on slice constructors",
+        technique="AUTH(len) on fixed-length decoders (Ok only behind count==LENGTH edges; size_hint forbidden as decision input) + framing offsets sibling check + LEN on slice constructors + dominance of serialize_field over end in struct serializers",
         category="other", design="§3 C16",
         text="to_bytes/from_bytes offsets agree and equal libsodium's layout; every fixed-length decoder reaches Ok only "
-             "through an equality between LENGTH and the actual byte/element count; slice constructors size the destination first.",
+             "through an equality between LENGTH and the actual byte/element count; slice constructors size the destination first; "
+             "every struct serializer (derived ones included) writes every field on every path.",
         note="not decided: serde-format specifics; equality of decoded objects."),
     "C17": dict(
         technique="CLEAN path analysis on MIR (no write to a caller output followed by an Err exit without whole-buffer zeroing), callee effect summaries bottom-up",
